@@ -14,5 +14,5 @@ CONSTANTS Weights = {1, 49, 50, 51, 100}
  Slices = {"sigs", "tamper", "payer", "junk", "box", "kinds", "reconf"}
  Dev = {}
 VIEW View
-PROPERTIES EffectOnlyIfAuthorized CanonicalAccepted RepeatNeverHelps ForeignNeverHelps RemovalNeverHelps EncodingIrrelevant TamperFalsifies PayerBinds ThresholdExact Reconf
+PROPERTIES EffectOnlyIfAuthorized CanonicalAccepted RepeatNeverHelps ForeignNeverHelps RemovalNeverHelps EncodingIrrelevant TamperFalsifies PayerBinds ThresholdExact Reconf ChangeCovered BoxBinds LabelIrrelevant
 CHECK_DEADLOCK FALSE
